@@ -300,10 +300,10 @@ theorem C18_woken_only_by_gate {s s' : State} {e : Ev} {o : Out} {t : Nat}
       · contradiction
       · have := congrArg Prod.fst (Option.some.inj hs)
         simp only at this; subst this
-        exact hrf _ rfl hpc'
+        exact hrf { s with reading := false } rfl hpc'
       · have := congrArg Prod.fst (Option.some.inj hs)
         simp only at this; subst this
-        exact hrf _ rfl hpc'
+        exact hrf s rfl hpc'
       · have := congrArg Prod.fst (Option.some.inj hs)
         simp only at this; subst this
         exact hsw hpc'
@@ -565,8 +565,8 @@ example :
 example :
     (traceFrom step init
       [.pauseWriting, .send 1 [1, 2], .step 1]).map
-      (fun r => (r.1.written, r.1.pc 1, r.1.writeOpen, step r.1 (.step 1) = none, r.2)) =
-    some ([1, 2], Pc.sendWait, false, True, [.env, .susp, .susp]) ∧
+      (fun r => (r.1.written, r.1.pc 1, r.1.writeOpen, r.2)) =
+    some ([1, 2], Pc.sendWait, false, [.env, .susp, .susp]) ∧
     (traceFrom step init
       [.pauseWriting, .send 1 [1, 2], .step 1, .resumeWriting, .step 1]).map
       (fun r => (r.1.written, r.1.pc 1, r.1.sowner, r.2)) =
